@@ -597,9 +597,11 @@ class ExploreResult:
         self.samples: list = []
         self.wall_s = 0.0
         self.notes: list = []
+        self.validated = 0        # paths whose result was also computed by the unpatched code and found identical
+        self.real_checked = 0     # models of accepted paths replayed on the unpatched code
 
     def merge(self, o: "ExploreResult"):
-        for k in ("paths", "aborted", "truncated", "decisions", "queries", "obligations", "discharged"):
+        for k in ("paths", "aborted", "truncated", "decisions", "queries", "obligations", "discharged", "validated", "real_checked"):
             setattr(self, k, getattr(self, k) + getattr(o, k))
         self.solver_s += o.solver_s
         self.wall_s += o.wall_s
@@ -636,6 +638,25 @@ def _model_to_py(m, inputs):
     return out
 
 
+def path_inputs(ctx) -> dict:
+    """concrete values of all named inputs for one model of the current path condition"""
+    if ctx.check() != z3.sat:
+        raise PathAbort("infeasible")
+    return _model_to_py(ctx.solver.model(), ctx.inputs)
+
+
+def validate_path(ctx, shim_result, real_fn, every: int = 1, what: str = "result"):
+    """translator validation on the path itself: recompute the result with the unpatched code on a model of this
+    path and require it to be identical to what the shimmed execution produced (a disagreement is a harness error)"""
+    if every > 1 and (__import__('zlib').crc32(repr(ctx.trace).encode()) % every) != 0:
+        return
+    inputs = path_inputs(ctx)
+    real = real_fn(inputs)
+    if real != shim_result:
+        raise Inconclusive(f"shim/real disagreement on {what}: shim={str(shim_result)[:200]} real={str(real)[:200]} inputs={str(inputs)[:200]}")
+    ctx.notes["validated"] = ctx.notes.get("validated", 0) + 1
+
+
 def _has_alternative(d) -> bool:
     if d[0] == "c":
         return d[1] + 1 < d[2]
@@ -643,7 +664,8 @@ def _has_alternative(d) -> bool:
 
 
 def explore(run, *, max_paths: int = 200_000, max_seconds: float = 3600.0, label: str = "",
-            stop_on_cex: bool = True, max_cex: int = 3, sample_every: int = 0) -> ExploreResult:
+            stop_on_cex: bool = True, max_cex: int = 3, sample_every: int = 0,
+            validate=None, validate_every: int = 16, validate_max: int = 40) -> ExploreResult:
     """DFS over the decision tree of `run(ctx)`.
 
     `run` returns a list of obligations `(name, z3 BoolRef | bool)`; it may raise PathAbort to
@@ -679,6 +701,7 @@ def explore(run, *, max_paths: int = 200_000, max_seconds: float = 3600.0, label
             Ctx.cur = None
         if obs is not None:
             res.paths += 1
+            res.validated += int(ctx.notes.get("validated", 0))
             for name, ob in obs:
                 res.obligations += 1
                 if ob is True or (isinstance(ob, z3.BoolRef) and z3.is_true(z3.simplify(ob))):
@@ -694,6 +717,21 @@ def explore(run, *, max_paths: int = 200_000, max_seconds: float = 3600.0, label
                     res.cex.append(dict(label=label, obligation=name, inputs=_model_to_py(m, ctx.inputs),
                                         notes={k: (v if isinstance(v, (int, str, bool, list, dict, type(None))) else str(v))
                                                for k, v in ctx.notes.items()}))
+            # cross-check against the unpatched code: on a sample of the paths whose obligations were all discharged,
+            # a model of the path is replayed on the real code, which must not exhibit a violation either
+            if (validate is not None and not res.cex and validate_every and res.real_checked < validate_max
+                    and (res.paths == 1 or __import__("zlib").crc32(repr(ctx.trace).encode()) % validate_every == 0)):
+                try:
+                    vin = path_inputs(ctx)
+                except PathAbort:
+                    vin = None
+                if vin is not None:
+                    vmsg = validate(vin, {k: v for k, v in ctx.notes.items() if isinstance(v, (int, str, bool, list, dict, type(None)))})
+                    res.real_checked += 1
+                    if vmsg is not None:
+                        res.notes.append(f"real code reports a violation on a model of a path the symbolic run accepted: {vmsg} (inputs {str(vin)[:300]})")
+                    else:
+                        res.validated += 1
             if len(res.samples) < 3 or (sample_every and res.paths % sample_every == 0 and len(res.samples) < 8):
                 pc = [str(a) for a in ctx.solver.assertions()][-6:]
                 res.samples.append(dict(label=label, path=res.paths, decisions=len(ctx.trace),
